@@ -63,6 +63,8 @@ CARDS = {
     "zoe.vcf": card("Zoë Ångström", "NOTE:likes a\\, b\\; and c\r\n"),
     "long.vcf": card("Long Note", f"NOTE:{LONG}\r\n"),
     "bare.vcf": card("Bare Card"),
+    # a parameter with several values: a param-filter matches when one of the values does
+    "multi.vcf": card("Multi Tel", "TEL;TYPE=HOME,VOICE:+1-555-0100\r\nTEL;TYPE=CELL:+1-555-0199\r\n"),
 }
 
 
@@ -89,6 +91,12 @@ def filters():
         "NOTE": ["", "<C:is-not-defined/>", tm("a, b; and c", "ends-with"), tm("b; and", "contains"), tm("serialiser because it is far longer", "contains"),
                  tm("seventy-five octets", "ends-with"), tm("A very long", "starts-with")],
         "NICKNAME": ["", "<C:is-not-defined/>", tm("johnny", "equals")],
+        "TEL": ["", "<C:param-filter name='TYPE'>" + tm("voice", "equals") + "</C:param-filter>",
+                "<C:param-filter name='TYPE'>" + tm("vo", "starts-with") + "</C:param-filter>",
+                "<C:param-filter name='TYPE'>" + tm("me", "ends-with") + "</C:param-filter>",
+                "<C:param-filter name='TYPE'>" + tm("home", "contains", neg=True) + "</C:param-filter>",
+                "<C:param-filter name='TYPE'>" + tm("home,voice", "equals") + "</C:param-filter>",
+                "<C:param-filter name='TYPE'>" + tm("cell", "equals") + "</C:param-filter>"],
     }
     pfs = [f"<C:prop-filter name='{n}'>{l}</C:prop-filter>" for n, ls in leaves.items() for l in ls]
     out = [("single", [p], None) for p in pfs]
@@ -194,7 +202,7 @@ class Explore:
                     if got1 is None or len(got1) > 1 or not set(got1) <= exp or len(got1) == 0:
                         return {"failing": True, "tried": n, "input": {"filter": fxml, "nresults": 1},
                                 "expected": f"exactly one of {sorted(exp)}", "observed": f"{st} {sorted(got1) if got1 is not None else err}"}
-            return {"failing": False, "tried": n, "bound": "5 stored cards (folded lines, escaped characters, non-ASCII names, several EMAILs) x "
+            return {"failing": False, "tried": n, "bound": "6 stored cards (a multi-valued parameter, folded lines, escaped characters, non-ASCII names, several EMAILs) x "
                                                           f"{n} filters: every text-match type / collation / negation, is-not-defined, param-filter, "
                                                           "60 seeded pairs under anyof / allof / default, the empty filter; address-data; nresults=1"}
         finally:
